@@ -692,12 +692,21 @@ func worker(w *runner.W) {
 			}
 		}
 	}
+	sizeWorker(w, &caseNo)
 }
 
 func replay(w *runner.W, raw json.RawMessage) {
 	var c Case
 	if err := json.Unmarshal(raw, &c); err != nil {
 		panic(err)
+	}
+	if c.Kind == "size" {
+		var d sizeDesc
+		if err := json.Unmarshal(raw, &d); err != nil {
+			panic(err)
+		}
+		replaySize(w, d)
+		return
 	}
 	if c.Kind == "compile" && c.Prefix == "" && len(c.Toks) == 0 && c.Class != "" {
 		runErrShape(w, errShape{unq(c.Pattern), c.Class})
@@ -750,7 +759,8 @@ func main() {
 				}
 				fmt.Fprintf(&sb, "%s: leading literals %q, trailing literals %q, line alphabet %q, L=%d", p.tag, p.prefixes, p.untils, p.alpha, p.maxLen)
 			}
-			sb.WriteString(". Each instance matches the whole line set in order and again in reverse order (several thousand calls, > 1024 so the int pool is refilled many times); every slice ever returned is retained and compared with its recorded contents at the end. Plus malformed patterns (adjacent tokens, unclosed token, duplicate capture name; 4 leading literals x 18 shapes x 2 modes) which must be rejected. One evaluation = one (pattern, mode, line) or one malformed pattern; non-trivial = the real matcher returned a match (for malformed patterns: returned an error)")
+			sb.WriteString(". Each instance matches the whole line set in order and again in reverse order (several thousand calls, > 1024 so the int pool is refilled many times); every slice ever returned is retained and compared with its recorded contents at the end. Plus malformed patterns (adjacent tokens, unclosed token, duplicate capture name; 4 leading literals x 18 shapes x 2 modes) which must be rejected. One evaluation = one (pattern, mode, line) or one malformed pattern; non-trivial = the real matcher returned a match (for malformed patterns: returned an error).")
+			sb.WriteString(sizeRule(tier != "thorough"))
 			return sb.String()
 		},
 		Assumptions: func(string) []string {
